@@ -628,7 +628,12 @@ def r9(ctx):
             last = {}
             for t, v, k in r['stores']:
                 if t in (f'{rv}.is_read1', f'{rv}.is_read2'):
-                    last[t.split('.')[-1]] = v
+                    # the stored expression is evaluated for the slot at hand (`mate_index == 0` is True for slot 0)
+                    try:
+                        val_ = eval3(ast.parse(v, mode='eval').body, {iv: slot})
+                    except SyntaxError:
+                        val_ = UNK
+                    last[t.split('.')[-1]] = v if val_ is UNK else str(bool(val_))
             if last != want:
                 bad.append(last)
         ctx.counters['paths_enumerated'] += len(rs)
